@@ -4,6 +4,7 @@
 #include "of_openfec_api.h"
 #include "applis/eperftool/blocking_struct.h"
 #include <fenv.h>
+#include <pthread.h>
 
 static uint64_t g_checked;
 
@@ -35,6 +36,22 @@ static void one_mode(uint32_t B, uint32_t L, uint32_t E, int announce, int uniqu
 		rep_viol("blocking:sum", "B=%u L=%u E=%u", B, L, E);
 	g_checked++;
 	if (announce) rep_case_done(1, hash64(hash64(B, L), E), unique);
+}
+
+/* The function has no state of its own: several threads asking at the same time, each with its own output structure, must each
+ * get the structure of their own (B, L, E). Mismatches are collected per thread and reported after the join. */
+typedef struct { uint64_t seed; long n; long bad; uint32_t B, L, E; of_blocking_struct_t got; } thr_blk_t;
+static void *thr_blk(void *a)
+{
+	thr_blk_t *t = a; rng_t r = rng_make(t->seed, 2090, 20);
+	for (long i = 0; i < t->n; i++) {
+		uint32_t E = 1 + rng_below(&r, rng_below(&r, 2) ? 16 : 1500), L = 1 + rng_below(&r, rng_below(&r, 2) ? 5000 : 3000000), B = 1 + rng_below(&r, rng_below(&r, 2) ? 64 : 5000);
+		of_blocking_struct_t bs; memset(&bs, 0xCD, sizeof bs);
+		of_compute_blocking_struct(B, L, E, &bs);
+		uint64_t T = ((uint64_t)L + E - 1) / E, N = (T + B - 1) / B, As = T / N, Al = (T + N - 1) / N, I = T - As * N;
+		if (bs.nb_blocks != N || bs.A_small != As || bs.A_large != Al || bs.I != I) { if (!t->bad) { t->B = B; t->L = L; t->E = E; t->got = bs; } t->bad++; }
+	}
+	return NULL;
 }
 
 int p_c20(void)
@@ -103,6 +120,17 @@ int p_c20(void)
 			if (B == 0) B = 1;
 			one(B, L, E, 1, 0);
 		}
+	}
+	for (int u = 0; u < 4; u++, unit++) {
+		rep_unit(unit);
+		if (!rep_unit_mine(unit)) continue;
+		if (!rep_case("4 threads computing different structures at the same time, round %d", u)) continue;
+		thr_blk_t t[4]; pthread_t th[4]; memset(t, 0, sizeof t);
+		for (int q = 0; q < 4; q++) { t[q].seed = g_run.seed * 16 + (uint64_t)u * 4 + (uint64_t)q; t[q].n = g_run.thorough ? 2000000 : 200000; if (pthread_create(&th[q], NULL, thr_blk, &t[q])) rep_fatal("pthread_create"); }
+		for (int q = 0; q < 4; q++) pthread_join(th[q], NULL);
+		for (int q = 0; q < 4; q++) { g_checked += (uint64_t)t[q].n; if (t[q].bad) rep_viol("blocking:concurrent-callers", "%ld of %ld structures computed by one of 4 concurrent threads are not those of its own arguments, e.g. B=%u L=%u E=%u got N=%u I=%u A_large=%u A_small=%u", t[q].bad, t[q].n, t[q].B, t[q].L, t[q].E, t[q].got.nb_blocks, t[q].got.I, t[q].got.A_large, t[q].got.A_small); }
+		rep_count("points_computed_by_concurrent_threads", (uint64_t)(4 * t[0].n));
+		rep_case_done(1, 0, 1);
 	}
 	rep_count("points_checked", g_checked);
 	return 0;
